@@ -351,6 +351,16 @@ fn edit() -> impl Strategy<Value = Edit> {
             Just(" "), Just("urn:"), Just("?"), Just("a:b?c=d&amp;e"), Just("http://"), Just("/"), Just("::/0"),
             Just("10.0.0.0/33"), Just("/-/"), Just("/24-/8"), Just("inet"), Just("::/129"), Just("1.2.3/8"),
         ].prop_map(|s| Edit::Replace(s.to_string())),
+        // long text of multi-byte characters at every alignment: code that cuts, pads or indexes
+        // server text by bytes meets a character boundary problem at any cut point up to 700
+        2 => (0usize..4, 0usize..3).prop_map(|(offset, kind)| {
+            let c = ['\u{e9}', '\u{2018}', '\u{1F600}'][kind];
+            let mut t = "a".repeat(offset);
+            while t.len() < 700 {
+                t.push(c);
+            }
+            Edit::Replace(t)
+        }),
         1 => Just(Edit::Duplicate),
         6 => (any::<u16>(), any::<bool>()).prop_map(|(k, a)| Edit::TruncateAtSep(k, a)),
         2 => any::<u16>().prop_map(Edit::DeleteSep),
